@@ -135,7 +135,19 @@ func expand(reg *registry.Registry, t *Transaction, accrual *syntax.Accrual) ([]
 			}.Build())
 		}
 		if p.Account.IsIE() {
+			if start.IsZero() {
+				return nil, syntax.Error{
+					Message: "accrual period must start after 0001-01-01",
+					Range:   accrual.Start.Range,
+				}
+			}
 			partition := date.NewPartition(date.Period{Start: start, End: end}, interval, 0)
+			if partition.Size() == 0 {
+				return nil, syntax.Error{
+					Message: "accrual period is empty: it ends before it starts",
+					Range:   accrual.Range,
+				}
+			}
 			amount, rem := p.Quantity.QuoRem(decimal.NewFromInt(int64(partition.Size())), 1)
 			for i, dt := range partition.EndDates() {
 				a := amount
